@@ -139,3 +139,109 @@ def prop_C18(ctx, tier):
     from . import rules_core as K
     K.check_orphan_tolerance(run, ctx, 'C18-P1')
     return run
+
+
+def prop_C15(ctx, tier):
+    from . import rules_core as K
+    from . import rules_shape as S
+    from . import rules_w as W
+    run = Run('C15', tier,
+              'E1/E2: for the three lookups x 48 configuration specialisations x {absent, fresh, expired} scenarios (oracles fix the store-lookup and expiry-test outcomes; '
+              'path-sensitive abstract exploration of mir_built) every path records exactly one of hit/miss, and a hit exactly when a value is returned. '
+              'S1: counters are atomic fetch_add(1) on the same-named field, reset stores 0 to both. S2: registry reset/get touch only the looked-up entry. '
+              'W1: generated code registers the stats static it also passes to the cache, under the name attribute or the function name. Not decided: equality with a model\'s counts over histories.',
+              ASSUME_COMMON)
+    n, anchors = K.check_lookup_stats(run, ctx)
+    run.require('C15-E1', 'lookup entry points', len([a for a in anchors.values() if a]), 3)
+    run.require('C15-E1', 'scenario outcomes', n, 300)
+    run.exhaustive = {'flavours': 3, 'policies': 6, 'bound presence': 8, 'scenarios': ['absent', 'fresh', 'expired(ttl=Some)']}
+    S.check_stats_shapes(run, ctx)
+    W.check_stats_registration(run, ctx)
+    return run
+
+
+def prop_C06(ctx, tier):
+    from . import rules_core as K
+    run = Run('C06', tier,
+              'K1: the expiry test normalises to AGE_SECS >= TTL on whole seconds (sync is_expired; async lookup). E1/P1: for 3 lookups x 48 specialisations, with oracles fixing '
+              'the lookup and the expiry test: expired => nothing returned, key purged from store and queue on every path, no hit effects; fresh => value returned, nothing removed; '
+              'absent => no effect. S1: birth time is written only when an entry is stored (Instant::now / whole-second clock). Not decided: wall-clock behaviour.', ASSUME_COMMON)
+    K.check_expiry_form(run, ctx)
+    n, anchors = K.check_lookup_expiry(run, ctx)
+    run.require('C06-E1', 'lookup entry points', len([a for a in anchors.values() if a]), 3)
+    run.require('C06-E1', 'expiry test sites', sum(a['expiry'] for a in anchors.values() if a), 3)
+    run.require('C06-E1', 'scenario outcomes', n, 300)
+    K.check_frequency_shapes(run, ctx)
+    run.exhaustive = {'flavours': 3, 'policies': 6, 'bound presence': 8}
+    return run
+
+
+def prop_C07(ctx, tier):
+    from . import rules_core as K
+    from . import rules_shape as S
+    run = Run('C07', tier,
+              'S1: queue orientation table (store end, touch end, victim end) agrees across 3 flavours x {limit, memory} paths. E1: for 3 lookups x 48 specialisations, on a fresh hit: '
+              'LRU with a bound re-queues the key on every path (conditional only on membership re-checks), FIFO has no queue effect. P1: FIFO/LRU victim loops skip orphans. '
+              'Not decided: the victim as a function of a history (induction on paper).', ASSUME_COMMON)
+    n, anchors = K.check_hit_effects(run, ctx, 'C07')
+    run.require('C07-E1', 'lookup entry points', len([a for a in anchors.values() if a]), 3)
+    run.require('C07-E1', 'LRU/FIFO hit outcomes', n, 40)
+    S.check_orientation(run, ctx)
+    K.check_orphan_tolerance(run, ctx, 'C07-P1')
+    K.check_store_pairing(run, ctx)
+    run.violations = [v for v in run.violations if v['rule'].startswith('C07')]
+    return run
+
+
+def prop_C08(ctx, tier):
+    from . import rules_core as K
+    run = Run('C08', tier,
+              'E1: on a fresh hit with a bound, LFU/ARC/TLRU increment the requested entry\'s counter exactly once on every path and ARC/TLRU re-queue the key (3 lookups x 48 specialisations). '
+              'S1: new entries start at 0, increment adds one. K1: the six selectors scan the whole queue and replace on </<=. K2: score = documented product of factors. '
+              'K3/K4: recency polarity and exponent judged where residents compete (eviction before insertion); masked where the zero-score newcomer always wins. '
+              'Not decided: float ties, the age interval.', ASSUME_COMMON)
+    n, anchors = K.check_hit_effects(run, ctx, 'C08')
+    run.require('C08-E1', 'LFU/ARC/TLRU hit outcomes', n, 60)
+    K.check_selectors(run, ctx)
+    K.check_frequency_shapes(run, ctx)
+    run.violations = [v for v in run.violations if v['rule'].startswith('C08')]
+    return run
+
+
+def prop_C04(ctx, tier):
+    from . import rules_core as K
+    from . import rules_shape as S
+    run = Run('C04', tier,
+              'K1: the overflow test is `len > limit` where the new entry is already stored and `len >= limit` where it is not (placement computed by dominance). '
+              'E1: with a limit the test lies on every storing path. P1/P2: per flavour x policy, under the overflow oracle, every path removes at most one store entry and removes '
+              'it from store and queue together (orphan paths judged separately). P4: a store leaves the key in store and queue together. K2: the random victim is a position of the '
+              'queue it is removed from. P3: re-stored keys are de-duplicated in the queue. Not decided: the numeric bound over histories (induction on paper).', ASSUME_COMMON)
+    K.check_overflow_form(run, ctx)
+    n, anchors = K.check_overflow_test_on_every_path(run, ctx)
+    run.require('C04-E1', 'store entry points', len([a for a in anchors.values() if a]), 6)
+    n2, a2 = K.check_one_victim(run, ctx)
+    run.require('C04-P1', 'limit-eviction routines', len([a for a in a2.values() if a]), 3)
+    run.require('C04-P1', 'eviction outcomes', n2, 36)
+    K.check_store_pairing(run, ctx)
+    K.check_lookup_expiry(run, ctx)  # expired purge leaves both (P2)
+    S.check_random_victim(run, ctx)
+    S.check_queue_dedupe(run, ctx)
+    run.violations = [v for v in run.violations if v['rule'].startswith('C04') or v['rule'] == 'C06-P1']
+    run.exhaustive = {'flavours': 3, 'policies': 6, 'bound presence': 8}
+    return run
+
+
+def prop_C05(ctx, tier):
+    from . import rules_core as K
+    from . import rules_shape as S
+    from . import rules_w as W
+    run = Run('C05', tier,
+              'K1: oversize test is NEW_SIZE > MAX_MEM and its true edge leaves no net entry and never enters the eviction loop. K2: the fit test is MEM_SUM <= MAX_MEM where the new entry is '
+              'already stored, MEM_SUM+NEW_SIZE <= MAX_MEM where it is not; under the "fits" oracle nothing is evicted. K3: the sum ranges over all stored values. P1: every loop iteration '
+              'removes exactly one victim from store and queue, and an iteration that removed nothing leaves the loop. S1: estimator impls count capacity and recurse into every component. '
+              'W1: max_memory selects the memory-aware store. Not decided: numeric totals.', ASSUME_COMMON)
+    K.check_memory_forms(run, ctx)
+    K.check_memory_loop(run, ctx)
+    S.check_estimators(run, ctx)
+    W.check_memory_store_selected(run, ctx)
+    return run
